@@ -28,7 +28,7 @@ impl Endpoint {
         let local_addr = socket.local_addr()?.pipe(RwLock::new);
         let server_config = config.server_config().clone();
         #[cfg(bmwill_anemo_verif)]
-        let verif_socket = crate::verif::socket_for(socket.local_addr()?);
+        let verif_socket = crate::verif::socket_for(&socket);
         #[cfg(bmwill_anemo_verif)]
         if let Some(abstract_socket) = verif_socket {
             let endpoint = quinn::Endpoint::new_with_abstract_socket(
